@@ -657,6 +657,29 @@ func (m *writerModel) ruleW6(r *Rep, rule string) {
 		if _, ok := mustPass(locOf(cl), isReturn, m.isEff("wg.Wait"), nil); !ok {
 			why += " Close returns without waiting for the emitter (wg.Wait);"
 		}
+		// every path of a first Close (the closed == false edge) closes the queue
+		// and waits for the emitter: otherwise the emitting goroutine is leaked
+		for _, b := range closeFn.Blocks {
+			i := ifOf(b)
+			if i == nil {
+				continue
+			}
+			cond := i.Cond
+			k := 1
+			if u, ok := cond.(*ssa.UnOp); ok && u.Op == token.NOT {
+				cond, k = u.X, 0
+			}
+			if f, _ := loadedField(cond); f != m.fCls {
+				continue
+			}
+			start := Loc{b.Succs[k], -1}
+			if bad, ok := mustPass(start, isReturn, m.isEff("close:queue"), nil); !ok {
+				why += fmt.Sprintf(" a first Close can return at %s without closing the queue: the emitting goroutine is never told to stop (goroutine leak);", c.Pos(bad.Pos()))
+			}
+			if bad, ok := mustPass(start, isReturn, m.isEff("wg.Wait"), nil); !ok {
+				why += fmt.Sprintf(" a first Close can return at %s without waiting for the emitting goroutine;", c.Pos(bad.Pos()))
+			}
+		}
 	}
 	r.Check(why == "", rule, c.FnName(closeFn)+"#close-queue", c.Pos(closeFn.Pos()), "close(queue) once, under !closed, after submitting the active block, followed by wg.Wait", why)
 
